@@ -403,8 +403,11 @@ def Msg.enc : Msg → E
 /-- `(Era, TagWrap<Bytes, 24>)` — `TagWrap::decode` accepts any tag -/
 def txDec : Dec (Nat × Bytes) := tuple2 u8 (fun bs => (tag bs).bind fun _ r => bytes r)
 
+/-- label 6: the *array header* says whether a transaction follows (`n > 1`; for an indefinite
+    array: anything but the break) — since the repair "txmonitor ResponseNextTx decoding looks at
+    the array length, not at the bytes after the message" -/
 def Msg.dec : Dec Msg := fun bs =>
-  (labelled bs).bind fun label r =>
+  (array bs).bind fun len r => (u16 r).bind fun label r =>
     match label with
     | 0 => .ok .done r
     | 1 => .ok .acquire r
@@ -413,11 +416,11 @@ def Msg.dec : Dec Msg := fun bs =>
     | 4 => .ok .awaitAcquire r
     | 5 => .ok .requestNextTx r
     | 6 =>
-      match datatype r with
-      | .ok t _ =>
-        if t = .array ∨ t = .arrayIndef then (txDec r).bind fun tx r => .ok (.responseNextTx (some tx)) r
+      (match len with
+       | some n => Res.ok (decide (n > 1)) r
+       | none => (datatype r).bind fun t r' => .ok (decide (t ≠ Ty.brk)) r').bind fun hasTx r =>
+        if hasTx then (txDec r).bind fun tx r => .ok (.responseNextTx (some tx)) r
         else .ok (.responseNextTx none) r
-      | _ => .ok (.responseNextTx none) r
     | 7 => (str r).bind fun id r => .ok (.requestHasTx id) r
     | 8 => (bool r).bind fun b r => .ok (.responseHasTx b) r
     | 9 => .ok .requestSizeAndCapacity r
@@ -501,8 +504,10 @@ def Msg.enc {Tx Rej : Type} (encTx : Tx → E) (encRej : Rej → E) : Msg Tx Rej
   | .rejectTx rej => .arr 2 [.uint 2, encRej rej]
   | .done => .arr 1 [.uint 3]
 
-/-- if the input does not start with an array head (or is empty), the *whole input* is taken as a
-    UTF-8 string and turned into a rejection (`from_utf8(d.input())…into()`) -/
+/-- if the input does not start with an array head, the *whole input* is taken as a UTF-8 string
+    and turned into a rejection (`from_utf8(d.input())…into()`); an empty or truncated head is
+    reported as end of input (since the repair "localtxsubmission message decoding reports end of
+    input instead of an empty Plutus rejection") -/
 def Msg.dec {Tx Rej : Type} (decTx : Dec Tx) (decRej : Dec Rej) (ofString : Bytes → Rej) : Dec (Msg Tx Rej) := fun bs =>
   match array bs with
   | .ok _ r =>
@@ -513,7 +518,8 @@ def Msg.dec {Tx Rej : Type} (decTx : Dec Tx) (decRej : Dec Rej) (ofString : Byte
       | 2 => (decRej r).bind fun rej r => .ok (.rejectTx rej) r
       | 3 => .ok .done r
       | _ => .err
-  | _ => if utf8Valid bs then .ok (.rejectTx (ofString bs)) [] else .err
+  | .eoi => .eoi
+  | .err => if utf8Valid bs then .ok (.rejectTx (ofString bs)) [] else .err
 end LocalTx
 
 /-- the harness' opaque reject reason (`AnyCbor` + the `From<String>` the decoder requires) -/
